@@ -98,6 +98,9 @@ void bn_mod_barrt(bn_t c, const bn_t a, const bn_t m, const bn_t u) {
 
 	if (bn_cmp_abs(a, m) == RLC_LT) {
 		bn_copy(c, a);
+		if (bn_sign(c) == RLC_NEG) {
+			bn_add(c, c, m);
+		}
 		return;
 	}
 
